@@ -240,6 +240,9 @@ def rand_run(rng, fmt, kind, *, calls=None, iters=None, value_classes=None, dist
     if cb is not None and cb[0] == 'builtin' and rng.random() < 0.5:
         # the callback instantiated with the checkpoint's base class (without the engine), as the library's examples do
         s.insert(-1, ['cbbase', 1]); classes.append('callback_on_base_class')
+    if (cb is None or cb[0] == 'script') and rng.random() < 0.4:
+        # the user's callback returns int (0 = stop), not bool
+        s.insert(-1, ['cbint', 1]); classes.append('callback_returns_int')
     if rng.random() < 0.3:
         # rollbacks go through a reference to the checkpoint's base class; checkpoints are read from a stream that cannot seek
         s.insert(-1, ['rbbase', 1]); classes.append('rollback_through_base_class')
